@@ -15,8 +15,7 @@ def popFrontCharRun (s : Str) : Option (Str × Bool × Str) :=
   | [] => none
   | c :: _ =>
     let ws := isAsciiWhitespace c
-    let (first, rest) := s.span (fun d => isAsciiWhitespace d == ws)
-    some (first, ws, rest)
+    some (s.takeWhile (fun d => isAsciiWhitespace d == ws), ws, s.dropWhile (fun d => isAsciiWhitespace d == ws))
 
 def tokenCharLen : Token → Nat
   | .chars _ s => s.length
@@ -74,9 +73,11 @@ def ptcFuel (s : State) (token : Token) : Nat :=
 
 /-- the `CharacterTokens` arm of `process_token` (mod.rs:532): drop the line feed `ignore_lf` asks
 for, drop the token when nothing is left -/
+def dropIgnoredLf (ignoreLf : Bool) (x : Str) : Str :=
+  if ignoreLf then (match x with | '\n' :: rest => rest | _ => x) else x
+
 def charsToken (ignoreLf : Bool) (x : Str) : Option Token :=
-  let x := if ignoreLf then (match x with | '\n' :: rest => rest | _ => x) else x
-  if x.isEmpty then none else some (.chars .notSplit x)
+  if (dropIgnoredLf ignoreLf x).isEmpty then none else some (.chars .notSplit (dropIgnoredLf ignoreLf x))
 
 /-- `TokenSink::process_token` (mod.rs:477) -/
 def processToken (token : TokToken) (line : Nat) : M SinkResult := do
